@@ -406,8 +406,8 @@ VARIANTS = [
      "old": "      return self._del_name(op, state.pop_and_discard(), name, local=True)\n    else:\n      return self._pop_and_store(state, op, name, local=True)",
      "new": "      return self._del_name(op, state.pop_and_discard(), name, local=True)\n    else:\n      state, value = state.pop()\n      return self._store_value(state, name, value, local=True)"},
     {"name": "helper-table-choice-inverted", "rule": "R2.24", "file": VM, "expect": "fire",
-     "old": "    annotations_dict = self.current_annotated_locals if local else None",
-     "new": "    annotations_dict = None if local else self.current_annotated_locals"},
+     "old": "    if local or self.frame.f_globals is self.frame.f_locals:\n",
+     "new": "    if not local and self.frame.f_globals is not self.frame.f_locals:\n"},
     {"name": "fallback-to-recorded-type-dropped", "rule": "R2.24", "file": VM, "expect": "fire",
      "old": "        typ = annotations_dict[name].get_type(state.node, name)\n",
      "new": "        typ = None\n"},
@@ -417,8 +417,8 @@ VARIANTS = [
              "        state, op, name, value, annotations_dict=table, check_types=True\n    )\n"
              "    state = state.forward_cfg_node(f\"StoreDeref:{name}\")")},
     {"name": "twin-helper-table-choice-as-statement", "rule": "R2.24", "file": VM, "expect": "silent",
-     "old": "    annotations_dict = self.current_annotated_locals if local else None\n",
-     "new": "    if local:\n      annotations_dict = self.current_annotated_locals\n    else:\n      annotations_dict = None\n"},
+     "old": "    if local or self.frame.f_globals is self.frame.f_locals:\n",
+     "new": "    if local:\n      annotations_dict = self.current_annotated_locals\n    elif self.frame.f_globals is self.frame.f_locals:\n"},
     {"name": "twin-store-fast-positional-local", "rule": "R2.24", "file": VM, "expect": "silent",
      "old": "      return self._del_name(op, state.pop_and_discard(), name, local=True)\n    else:\n      return self._pop_and_store(state, op, name, local=True)",
      "new": "      return self._del_name(op, state.pop_and_discard(), name, local=True)\n    is_local = True\n    return self._pop_and_store(state, op, name, is_local)"},
